@@ -1,0 +1,69 @@
+//! Verification hooks (cargo feature `verif`, off by default).
+//!
+//! Nothing in here changes behaviour: the crate reports a handful of internal
+//! events to a callback that an external monitoring harness may install. With
+//! no callback installed every call site costs one relaxed load of a null
+//! pointer.
+
+use core::sync::atomic::{AtomicPtr, Ordering};
+
+/// An event reported by the crate to the installed probe.
+#[derive(Clone, Copy, Debug, PartialEq, Eq)]
+pub enum Probe {
+    /// A shared waker block was allocated: `[base, base + size)`.
+    BlockAlloc {
+        base: usize,
+        size: usize,
+        cap: usize,
+    },
+    /// A shared waker block is about to be released.
+    BlockRelease { base: usize },
+    /// Entry of a waker vtable function. `kind`: 0 clone, 1 wake, 2 wake_by_ref, 3 drop.
+    /// `slot` is the raw data pointer of the waker, nothing has been dereferenced yet.
+    WakerFn { kind: u8, slot: usize },
+    /// A failpoint / coverage point, see the `P_*` constants.
+    Point(u8),
+}
+
+/// poll: task waker registered, ready queue not yet inspected
+pub const P_AFTER_REGISTER: u8 = 0;
+/// pop: an entry was dequeued, its `queued` flag is not yet cleared
+pub const P_DEQUEUED_BEFORE_CLEAR: u8 = 1;
+/// wake_by_ref: the slot was enqueued, the task has not yet been notified
+pub const P_ENQUEUED_BEFORE_NOTIFY: u8 = 2;
+/// poll: ready queue empty, about to return `Pending`
+pub const P_EMPTY_BEFORE_PENDING: u8 = 3;
+/// poll: ready queue observed in its inconsistent state
+pub const P_INCONSISTENT: u8 = 4;
+/// poll: per-call budget exhausted
+pub const P_BUDGET: u8 = 5;
+/// poll: dequeued entry belonged to a vacant slot
+pub const P_VACANT_SKIPPED: u8 = 6;
+/// wake_by_ref: the slot was already queued (coalesced wake)
+pub const P_WAKE_COALESCED: u8 = 7;
+/// number of distinct points
+pub const P_COUNT: usize = 8;
+
+static PROBE: AtomicPtr<()> = AtomicPtr::new(core::ptr::null_mut());
+
+/// Install (or with `None` remove) the probe callback.
+pub fn set_probe(f: Option<fn(&Probe)>) {
+    let p = match f {
+        Some(f) => f as *mut (),
+        None => core::ptr::null_mut(),
+    };
+    PROBE.store(p, Ordering::Relaxed);
+}
+
+#[inline]
+pub(crate) fn emit(p: Probe) {
+    let f = PROBE.load(Ordering::Relaxed);
+    if !f.is_null() {
+        // SAFETY: only `set_probe` stores here, and it stores a `fn(&Probe)`.
+        let f: fn(&Probe) = unsafe { core::mem::transmute::<*mut (), fn(&Probe)>(f) };
+        f(&p);
+    }
+}
+
+/// Internal group layout of the unbounded collections: `(cursor, [(capacity, len)])`.
+pub type Layout = (usize, alloc::vec::Vec<(usize, usize)>);
